@@ -173,6 +173,7 @@ func (s *storage) setTerm(term uint64) {
 		if err := s.termVal.set(term, 0); err != nil {
 			panic(opError(err, "storage.setTermVote(%d, %d)", term, 0))
 		}
+		verifPersisted(s, term, 0)
 		s.term, s.votedFor = term, 0
 	}
 }
@@ -189,6 +190,7 @@ func (s *storage) setVotedFor(term, candidate uint64) {
 		if err != nil {
 			panic(opError(err, "storage.setTermVote(%d, %d)", term, candidate))
 		}
+		verifPersisted(s, term, candidate)
 		s.term, s.votedFor = term, candidate
 	}
 }
@@ -235,6 +237,7 @@ func (s *storage) appendEntry(e *entry) {
 		panic(opError(err, "Log.Append"))
 	}
 	s.lastLogIndex, s.lastLogTerm = e.index, e.term
+	verifAppend(s, e)
 }
 
 func (s *storage) commitLog(n uint64) {
@@ -261,6 +264,7 @@ func (r *Raft) compactLog(lte uint64) error {
 		r.alerts.Error(err)
 		return err
 	}
+	verifCompact(r)
 	r.logger.Info("log upto index ", r.log.PrevIndex(), "is discarded")
 	if tracer.logCompacted != nil {
 		tracer.logCompacted(r)
@@ -277,6 +281,7 @@ func (s *storage) clearLog() error {
 	assert(s.log.LastIndex() == s.snaps.index)
 	assert(s.log.PrevIndex() == s.snaps.index)
 	s.lastLogIndex, s.lastLogTerm = s.snaps.index, s.snaps.term
+	verifClearLog(s)
 	return nil
 }
 
@@ -288,6 +293,7 @@ func (s *storage) removeGTE(index, prevTerm uint64) {
 	}
 	assert(s.log.LastIndex() == index-1)
 	s.lastLogIndex, s.lastLogTerm = index-1, prevTerm
+	verifRemoveGTE(s, index)
 }
 
 func (s *storage) bootstrap(config Config) (err error) {
@@ -297,8 +303,11 @@ func (s *storage) bootstrap(config Config) (err error) {
 		}
 	}()
 	s.appendEntry(config.encode())
+	verifPointS(s, "bootstrap.appended")
 	s.commitLog(1)
+	verifPointS(s, "bootstrap.flushed")
 	s.setTerm(1)
+	verifPointS(s, "bootstrap.termset")
 	s.lastLogIndex, s.lastLogTerm = config.Index, config.Term
 	return nil
 }
